@@ -817,4 +817,334 @@ theorem forwardMsg_eq (w : World) (j : Nat) (msg : Trxd.TxMsg) (src : Trx) (fnI 
   | error e => rfl
   | ok p => simp only [List.nil_append]
 
+/-! ### codec facts used by the burst path (from the definitions of `Model/Trxd.lean`) -/
+
+theorem tabUbit2sbit_length : Gen.Trxd.tabUbit2sbit.length = 256 := by decide +kernel
+
+/-- the regenerated `ubit2sbit` table: octet 0 ↦ +127, every other octet ↦ −127 -/
+theorem tabUbit2sbit_point : ∀ b : Fin 256, Gen.Trxd.tabUbit2sbit[b.val]? = some (Spec.softOf b.val) := by
+  decide +kernel
+
+theorem translateGo_ubit (bits : List Nat) (h : ∀ b ∈ bits, b < 256) :
+    Trxd.translateGo Gen.Trxd.tabUbit2sbit bits = .ok (bits.map Spec.softOf) := by
+  induction bits with
+  | nil => rfl
+  | cons b bs ih =>
+    have hb : b < 256 := h b (List.mem_cons_self ..)
+    have := tabUbit2sbit_point ⟨b, hb⟩
+    simp only at this
+    simp only [Trxd.translateGo, this, ih (fun x hx => h x (List.mem_cons_of_mem _ hx)), List.map_cons]
+
+/-- `Msg.ubit2sbit`: one full-confidence soft bit of the matching sign per octet -/
+theorem ubit2sbit_eq (bits : List Nat) (h : ∀ b ∈ bits, b < 256) :
+    Trxd.ubit2sbit bits = .ok (bits.map Spec.softOf) := by
+  unfold Trxd.ubit2sbit Trxd.translate
+  simp only [tabUbit2sbit_length, ne_eq, not_true, if_false]
+  exact translateGo_ubit bits h
+
+/-- `TxMsg.trans(ver)` of a message with burst bits -/
+theorem trans_burst (s : Trxd.TxMsg) (v : Int) (bits : List Nat) (hb : s.burst = some bits)
+    (h : ∀ b ∈ bits, b < 256) :
+    s.trans (some v) = .ok { Trxd.RxMsg.fresh with fn := s.fn, tn := s.tn, ver := v,
+                                                   burst := some (bits.map Spec.softOf) } := by
+  unfold Trxd.TxMsg.trans
+  rw [hb]
+  dsimp only
+  rw [ubit2sbit_eq bits h]
+
+/-- `TxMsg.trans(ver)` of a message without burst bits: a NOPE indication -/
+theorem trans_noburst (s : Trxd.TxMsg) (v : Int) (hb : s.burst = none) :
+    s.trans (some v) = .ok { Trxd.RxMsg.fresh with fn := s.fn, tn := s.tn, ver := v, nopeInd := true } := by
+  unfold Trxd.TxMsg.trans
+  rw [hb]
+
+theorem fresh_nope : Trxd.RxMsg.fresh.nopeInd = false := by decide
+
 end OsmoVerif.World
+
+/-! ### codec facts about `RxMsg.validate` / `RxMsg.genMsg`
+
+Proved here directly from the definitions of `Model/Trxd.lean` because the TRXD worker's
+`Lemmas/Trxd.lean` (`RxMsg.validate_iff`, `RxMsg.genMsg_ok`) is not part of this clone; they are
+consequences of those theorems and can be replaced by them. -/
+
+namespace OsmoVerif.World.Codec
+open OsmoVerif OsmoVerif.Trxd
+
+theorem knownVersions_contains (v : Int) : Gen.Trxd.knownVersions.contains v = true ↔ (v = 0 ∨ v = 1) := by
+  simp only [Gen.Trxd.knownVersions, List.contains_cons, List.contains_nil, Bool.or_false, Bool.or_eq_true,
+    beq_iff_eq]
+
+theorem validateCommon_ok (ver : Int) (fn tn : Option Int) (h : validateCommon ver fn tn = .ok ()) :
+    (ver = 0 ∨ ver = 1) ∧ ∃ f t, fn = some f ∧ tn = some t ∧ 0 ≤ f ∧ f < 2715648 ∧ 0 ≤ t ∧ t ≤ 7 := by
+  unfold validateCommon at h
+  split at h
+  · cases h
+  · rename_i hv
+    split at h
+    · cases h
+    · rename_i f
+      split at h
+      · cases h
+      · rename_i hf
+        split at h
+        · cases h
+        · rename_i t
+          split at h
+          · cases h
+          · rename_i ht
+            simp only [Gen.Trxd.gsmHyperframe] at hf
+            refine ⟨(knownVersions_contains ver).1 (by simpa using hv), f, t, rfl, rfl, ?_, ?_, ?_, ?_⟩ <;> omega
+
+theorem validateCommon_err (ver : Int) (fn tn : Option Int) (e : Trxd.Exc)
+    (h : validateCommon ver fn tn = .error e) : e = .valueError := by
+  unfold validateCommon at h
+  repeat' split at h
+  all_goals cases h
+  all_goals rfl
+
+theorem genCommon_ok (ver : Int) (f t : Int) (hv : ver = 0 ∨ ver = 1) (h0 : 0 ≤ f) (h1 : f < 2715648)
+    (_h2 : 0 ≤ t) (_h3 : t ≤ 7) : ∃ b, genCommon ver (some f) (some t) = .ok b := by
+  unfold genCommon bytearrayAppend packBE32u
+  have a : 0 ≤ 16 * ver + t % 8 ∧ 16 * ver + t % 8 < 256 := by omega
+  have b : 0 ≤ f ∧ f < 4294967296 := by omega
+  simp only [a, b, and_self, if_true]
+  exact ⟨_, rfl⟩
+
+theorem validateMeas_ok (m : RxMsg) (h : m.validateMeas = .ok ()) :
+    ∃ r t, m.rssi = some r ∧ m.toa256 = some t ∧ -120 ≤ r ∧ r ≤ -47 ∧ -32768 ≤ t ∧ t ≤ 32767 := by
+  unfold RxMsg.validateMeas at h
+  split at h
+  · cases h
+  · rename_i r hr
+    split at h
+    · cases h
+    · rename_i h1
+      split at h
+      · cases h
+      · rename_i t ht
+        split at h
+        · cases h
+        · rename_i h2
+          simp only [Gen.Trxd.rssiMin, Gen.Trxd.rssiMax] at h1
+          simp only [Gen.Trxd.toa256Min, Gen.Trxd.toa256Max] at h2
+          refine ⟨r, t, hr, ht, ?_, ?_, ?_, ?_⟩ <;> omega
+
+theorem validateMeas_err (m : RxMsg) (e : Trxd.Exc) (h : m.validateMeas = .error e) : e = .valueError := by
+  unfold RxMsg.validateMeas at h
+  repeat' split at h
+  all_goals cases h
+  all_goals rfl
+
+theorem validateCi_ok (m : RxMsg) (h : m.validateCi = .ok ()) (hv : m.ver ≥ 1) :
+    ∃ c, m.ci = some c ∧ -1280 ≤ c ∧ c ≤ 1280 := by
+  unfold RxMsg.validateCi at h
+  simp only [hv, if_true] at h
+  split at h
+  · cases h
+  · rename_i c hc
+    split at h
+    · cases h
+    · rename_i h1
+      simp only [Gen.Trxd.ciMin, Gen.Trxd.ciMax] at h1
+      exact ⟨c, hc, by omega, by omega⟩
+
+theorem validateCi_err (m : RxMsg) (e : Trxd.Exc) (h : m.validateCi = .error e) : e = .valueError := by
+  unfold RxMsg.validateCi at h
+  repeat' split at h
+  all_goals cases h
+  all_goals rfl
+
+theorem tscRange_contains (v : Int) : Gen.Trxd.tscRange.contains v = true ↔ (0 ≤ v ∧ v ≤ 7) := by
+  simp only [Gen.Trxd.tscRange, List.contains_cons, List.contains_nil, Bool.or_false, Bool.or_eq_true,
+    beq_iff_eq]
+  omega
+
+theorem validateMts_ok (m : RxMsg) (h : m.validateMts = .ok ()) (hv : m.ver ≥ 1) (hn : m.nopeInd = false) :
+    ∃ mod set tsc, m.modType = some mod ∧ m.tscSet = some set ∧ m.tsc = some tsc ∧
+      0 ≤ set ∧ set < 4 ∧ 0 ≤ tsc ∧ tsc ≤ 7 := by
+  unfold RxMsg.validateMts at h
+  simp only [hv, hn, and_self, if_true] at h
+  split at h
+  · cases h
+  · rename_i mod hmod
+    split at h
+    · cases h
+    · rename_i set hset
+      by_cases hc : (if mod = Modulation.gmsk then ¬(0 ≤ set ∧ set < 4) else ¬(0 ≤ set ∧ set < 2))
+      · rw [if_pos hc] at h; cases h
+      rw [if_neg hc] at h
+      have hset' : 0 ≤ set ∧ set < 4 := by
+        by_cases hg : mod = Modulation.gmsk
+        · simp only [hg, if_true] at hc; omega
+        · simp only [hg, if_false] at hc; omega
+      have h' := h
+      split at h'
+      · cases h'
+      · rename_i tsc htsc
+        split at h'
+        · cases h'
+        · rename_i h2
+          have h2' := (tscRange_contains tsc).1 (by simpa using h2)
+          exact ⟨mod, set, tsc, hmod, hset, htsc, hset'.1, hset'.2, h2'.1, h2'.2⟩
+
+theorem validateMts_err (m : RxMsg) (e : Trxd.Exc) (h : m.validateMts = .error e) : e = .valueError := by
+  unfold RxMsg.validateMts at h
+  repeat' split at h
+  all_goals cases h
+  all_goals rfl
+
+theorem coding_le : ∀ mod : Modulation, mod.coding ≤ 12 := by decide
+
+theorem mts_lt (tsc set : Int) (mod : Modulation) (h0 : 0 ≤ set) (h1 : set < 4) :
+    ((((tsc % 8).toNat ||| (mod.coding <<< 3)) ||| (set.toNat <<< 3) : Nat) : Int) < 256 := by
+  have a : (tsc % 8).toNat < 2 ^ 7 := by omega
+  have b : mod.coding <<< 3 < 2 ^ 7 := by
+    have := coding_le mod
+    rw [Nat.shiftLeft_eq]; omega
+  have c : set.toNat <<< 3 < 2 ^ 7 := by
+    rw [Nat.shiftLeft_eq]; omega
+  have := Nat.or_lt_two_pow (Nat.or_lt_two_pow a b) c
+  omega
+
+theorem bytearrayAppend_ok (buf : Bytes) (x : Int) (h0 : 0 ≤ x) (h1 : x < 256) :
+    bytearrayAppend buf x = .ok (buf ++ [x.toNat]) := by
+  unfold bytearrayAppend
+  rw [if_pos ⟨h0, h1⟩]
+
+theorem appendMts_ok (m : RxMsg) (buf : Bytes) (hm : m.validateMts = .ok ()) (hv : m.ver ≥ 1) :
+    ∃ b, m.appendMts buf = .ok b := by
+  unfold RxMsg.appendMts
+  by_cases hn : m.nopeInd = true
+  · rw [if_pos hn, bytearrayAppend_ok _ _ (by decide) (by decide)]
+    exact ⟨_, rfl⟩
+  · have hn' : m.nopeInd = false := by simpa using hn
+    obtain ⟨mod, set, tsc, h1, h2, h3, h4, h5, _, _⟩ := validateMts_ok m hm hv hn'
+    have hlt := mts_lt tsc set mod h4 h5
+    have hs : ¬ set < 0 := by omega
+    rw [if_neg hn, h1, h2, h3]
+    dsimp only
+    rw [if_neg hs, bytearrayAppend_ok _ _ (by omega) hlt]
+    exact ⟨_, rfl⟩
+
+theorem packBE16s_ok (x : Int) (h0 : -32768 ≤ x) (h1 : x ≤ 32767) : ∃ b, packBE16s x = .ok b := by
+  unfold packBE16s
+  rw [if_pos ⟨h0, h1⟩]
+  exact ⟨_, rfl⟩
+
+theorem appendHdrTo_ok (m : RxMsg) (buf : Bytes) (h1 : m.validateMeas = .ok ())
+    (h2 : m.validateMts = .ok ()) (h3 : m.validateCi = .ok ()) : ∃ b, m.appendHdrTo buf = .ok b := by
+  obtain ⟨r, t, hr, ht, r0, r1, t0, t1⟩ := validateMeas_ok m h1
+  obtain ⟨tb, htb⟩ := packBE16s_ok t t0 t1
+  unfold RxMsg.appendHdrTo
+  rw [hr, ht]
+  dsimp only
+  rw [bytearrayAppend_ok _ _ (by omega) (by omega)]
+  dsimp only
+  rw [htb]
+  dsimp only
+  by_cases hv : m.ver ≥ 1
+  · obtain ⟨c, hc, c0, c1⟩ := validateCi_ok m h3 hv
+    obtain ⟨cb, hcb⟩ := packBE16s_ok c (by omega) (by omega)
+    obtain ⟨mb, hmb⟩ := appendMts_ok m (buf ++ [(-r).toNat] ++ tb) h2 hv
+    simp only [hv, if_true, hmb, hc, hcb]
+    exact ⟨_, rfl⟩
+  · simp only [hv, if_false]
+    exact ⟨_, rfl⟩
+
+theorem tabSbit2usbit_length : Gen.Trxd.tabSbit2usbit.length = 256 := by decide +kernel
+
+theorem translateGo_total {α : Type} (tab : List α) (hl : tab.length = 256) (xs : Bytes)
+    (h : ∀ x ∈ xs, x < 256) : ∃ r, translateGo tab xs = .ok r := by
+  induction xs with
+  | nil => exact ⟨[], rfl⟩
+  | cons x xs ih =>
+    have hx : x < tab.length := by rw [hl]; exact h x (List.mem_cons_self ..)
+    obtain ⟨r, hr⟩ := ih (fun y hy => h y (List.mem_cons_of_mem _ hy))
+    simp only [translateGo, List.getElem?_eq_getElem hx, hr]
+    exact ⟨_, rfl⟩
+
+theorem sbit2usbit_total (b : List Int) : ∃ u, sbit2usbit b = .ok u := by
+  unfold sbit2usbit translate
+  simp only [tabSbit2usbit_length, ne_eq, not_true, if_false]
+  apply translateGo_total _ tabSbit2usbit_length
+  intro x hx
+  obtain ⟨s, _, rfl⟩ := List.mem_map.1 hx
+  unfold sbyte; omega
+
+/-- after a successful `validate()`, `gen_msg()` cannot raise -/
+theorem genMsg_ok_of_validate (m : RxMsg) (l : Bool) (h : m.validate = .ok ()) :
+    ∃ b, m.genMsg l = .ok b := by
+  have h' := h
+  unfold RxMsg.validate at h'
+  split at h'
+  · cases h'
+  · rename_i hc
+    split at h'
+    · cases h'
+    · rename_i hmeas
+      split at h'
+      · cases h'
+      · rename_i hmts
+        split at h'
+        · cases h'
+        · rename_i hci
+          obtain ⟨hv, f, t, hf, ht, f0, f1, t0, t1⟩ := validateCommon_ok _ _ _ hc
+          obtain ⟨cb, hcb⟩ := genCommon_ok m.ver f t hv f0 f1 t0 t1
+          obtain ⟨hb, hhb⟩ := appendHdrTo_ok m cb hmeas hmts hci
+          unfold RxMsg.genMsg
+          simp only [h, hf, ht, hcb, hhb]
+          cases hbu : m.burst with
+          | none => exact ⟨_, rfl⟩
+          | some bits =>
+            obtain ⟨u, hu⟩ := sbit2usbit_total bits
+            simp only [hu]
+            exact ⟨_, rfl⟩
+
+theorem genMsg_err_of_validate (m : RxMsg) (l : Bool) (e : Trxd.Exc) (h : m.validate = .error e) :
+    m.genMsg l = .error e := by
+  unfold RxMsg.genMsg
+  simp only [h]
+
+theorem validate_err (m : RxMsg) (e : Trxd.Exc) (h : m.validate = .error e) : e = .valueError := by
+  unfold RxMsg.validate at h
+  split at h
+  · rename_i e' he; cases h; exact validateCommon_err _ _ _ _ he
+  · split at h
+    · rename_i e' he; cases h; exact validateMeas_err _ _ he
+    · split at h
+      · rename_i e' he; cases h; exact validateMts_err _ _ he
+      · rename_i hmts
+        split at h
+        · rename_i e' he; cases h; exact validateCi_err _ _ he
+        · unfold RxMsg.validateBurst at h
+          split at h
+          · unfold RxMsg.validateBurstV0 at h
+            repeat' split at h
+            all_goals cases h
+            all_goals rfl
+          · split at h
+            · rename_i hv
+              unfold RxMsg.validateBurstV1 at h
+              split at h
+              · cases h
+              · cases h; rfl
+              · cases h; rfl
+              · rename_i hn _
+                obtain ⟨mod, _, _, hmod, _⟩ := validateMts_ok m hmts hv hn
+                rw [hmod] at h
+                dsimp only at h
+                split at h
+                · cases h; rfl
+                · cases h
+            · cases h
+
+/-- legacy mode only appends the two padding octets of version 0 -/
+theorem genMsg_legacy (m : RxMsg) :
+    m.genMsg true = match m.genMsg false with
+      | .ok b => .ok (if m.ver = 0 then b ++ [0, 0] else b)
+      | .error e => .error e := by
+  unfold RxMsg.genMsg
+  repeat' split
+  all_goals simp_all
+end OsmoVerif.World.Codec
